@@ -663,7 +663,18 @@ PPL::Polyhedron::contains_integer_point() const {
       }
       Linear_Expression le(c.expression());
       if (homogeneous_gcd != 1) {
+        // Note: the division of the inhomogeneous term has to round
+        // downwards (whereas `operator/=' truncates).
+        le -= inhomogeneous;
         le /= homogeneous_gcd;
+        assign_r(rational_inhomogeneous.get_num(),
+                 inhomogeneous, ROUND_NOT_NEEDED);
+        assign_r(rational_inhomogeneous.get_den(),
+                 homogeneous_gcd, ROUND_NOT_NEEDED);
+        rational_inhomogeneous.canonicalize();
+        assign_r(tightened_inhomogeneous,
+                 rational_inhomogeneous, ROUND_DOWN);
+        le += tightened_inhomogeneous;
       }
       // Further tighten the constraint if the inhomogeneous term
       // was integer, i.e., if `homogeneous_gcd' divides `inhomogeneous'.
